@@ -36,6 +36,7 @@ func runC06(c *Ctx) {
 	c.Rule("seeded structured packets: every request/response kind x all 32 attribute-flag subsets (exhaustive kind x subset grid first), ids/offsets at 0,1,2^31,2^32-1,2^63,2^64-1, " +
 		"strings empty/long/non-UTF-8, payloads 0..70KiB, 0-3 extended pairs / name entries; each is marshalled by Go codec A and Go codec B and decoded by both; " +
 		"non-trivial = packet with at least one string or payload field that is non-empty or a non-zero attribute flag set")
+	c06InfoAttrs(c)
 	per := 40
 	if c.Thorough() {
 		per = 1200
